@@ -88,6 +88,7 @@ func main() {
 func debugRun(dir, pat string, rest []string) int {
 	e := NewEngine()
 	if v := os.Getenv("GOVC_PROP"); v != "" {
+		e.propID = v
 		currentPropID = v // property-scoped clauses (static_only Cnn, stop [Cnn]) behave as in `check Cnn`
 	}
 	verbose := false
